@@ -1,4 +1,5 @@
 import GrolProofs.PrintFrame
+import Grol.LitFact
 /-
 C03 (3), second half: the byte before the final newline of a normal-mode program text is not a newline,
 given the lexer fact that the literals of the tokens printed last by a node are non-empty and do not end
@@ -6,10 +7,6 @@ in a newline (`endOK`).  Together with `printProgram_ends_with_newline`: exactly
 -/
 namespace Grol.Printer
 open Grol.Generated Grol.Wire
-
-/-- a token literal that is non-empty and does not end in a newline (what the lexer produces for
-identifiers, numbers, keywords, operators and comments) -/
-def litOK (t : Tk) : Bool := !t.lit.isEmpty && t.lit.getLast? != some 10
 
 mutual
 /-- the token literals a node prints LAST (along its right-most spine) satisfy `litOK`; nodes that end with a
